@@ -124,7 +124,8 @@ class C13(object):
                     steps.append(["call", [call()]])
                 else:
                     steps.append(["call", [call(False) for _ in range(rng.randint(2, 3))]])
-        return {"target": target, "maxsize": rng.randint(1, 4), "ttl": rng.choice([0, 100, 100, 1000]),
+        return {"target": target, "maxsize": rng.randint(1, 4), "ttl": rng.choice([0, 100, 100, 1000, 86400 * 10 ** 6]),
+                "clock_origin": rng.choice([None, None, 5, 50, 10 ** 9]),
                 "lazy_blocks": rng.random() < 0.5, "lazy_fail_every": rng.choice([0, 0, 2, 3]),
                 "steps": steps, "prio": gen.gen_prio(rng, 2)}
 
@@ -281,8 +282,10 @@ class C13(object):
             @A.asynq()
             def m(self, a, b=0, *, c=0):
                 return (yield from W.body(self.n, a, b, c))
+        # instance 1 is falsy (an empty container): truth value must not matter for its cache
+        FK = type("FK", (K,), {"__len__": lambda self: 0})
         gen_no = [0, 0, 0]
-        objs = [K((i, 0)) for i in range(3)]
+        objs = [(FK if i == 1 else K)((i, 0)) for i in range(3)]
         refs = [RefLRU(None) for _ in range(3)]
         cache = K.m.__acached_per_instance_cache__ if hasattr(K.m, "__acached_per_instance_cache__") else None
         for n, st in enumerate(case.get("steps", [])):
@@ -298,7 +301,7 @@ class C13(object):
                         W.out.append(("vanish", "step %d: %d per-instance caches are held although only %d instances with cached calls are alive" % (n, len(cache), live)))
                         return
                 gen_no[i] += 1
-                objs[i] = K((i, gen_no[i]))
+                objs[i] = (FK if i == 1 else K)((i, gen_no[i]))
                 refs[i] = RefLRU(None)
                 continue
             if st[0] != "call":
@@ -324,6 +327,11 @@ class C13(object):
     def _run_lazy(self, W, case):
         ttl = int(case.get("ttl", 0))
         clock = real.simenv.clock
+        if case.get("clock_origin") is not None:
+            # the reading is "microseconds since some origin": also exercise an origin so recent
+            # that ttl exceeds the current reading (e.g. a monotonic clock shortly after boot)
+            clock.now = int(case["clock_origin"])
+            clock.start = clock.now
         blocks = bool(case.get("lazy_blocks"))
         fail_every = int(case.get("lazy_fail_every", 0))
         runs = [0]
